@@ -19,7 +19,8 @@ EXTENDS Integers, Sequences, FiniteSets, TLC, Randomization
 
 CONSTANTS MaxConj,   \* number of &-operands
           MaxAlt,    \* alternatives per disjunction
-          Sample     \* 0 = all expressions; k = seeded sample of k disjunctions per operand position
+          Sample,    \* 0 = all expressions; k = seeded sample of about k disjunctions per operand position
+          Seed       \* seed of the samples
 
 \* ---- scalar values: which probe atoms they admit; conc = a concrete atom ----
 \* probe atoms: 1, 2, 3 (ints), 25 (= 2.5, float), "a", "b" as strings "s_a", "s_b"
@@ -143,11 +144,17 @@ Directed3 == IF MaxAlt >= 3
                ELSE {}
 Directed2 == {<<[leaf |-> a, mark |-> TRUE], [leaf |-> b, mark |-> FALSE]>> : a \in {1, 2, 4}, b \in {1, 2, 4}}
 
-\* one seeded sample per operand position (constant definitions: evaluated once, so a run is reproducible
-\* from its seed whatever the number of TLC workers)
-Sample1 == IF Sample = 0 THEN {} ELSE RandomSubset(Sample, Disjs)
-Sample2 == IF Sample = 0 THEN {} ELSE RandomSubset(Sample + 1, Disjs)
-Sample3 == IF Sample = 0 THEN {} ELSE RandomSubset(Sample + 2, Disjs)
+\* One seeded sample per operand position.  The samples are computed by a hash of the disjunction and
+\* the seed instead of RandomSubset: TLC evaluates RandomSubset anew in every worker thread, so a run
+\* with several workers would not be reproducible from its seed.
+RECURSIVE HashAlts(_, _, _)
+HashAlts(d, j, acc) == IF j > Len(d) THEN acc
+                       ELSE HashAlts(d, j + 1, (acc * 31 + d[j].leaf * 7 + (IF d[j].mark THEN 3 ELSE 0) + j) % 104729)
+Pick(pos) == LET keep == (Cardinality(Disjs) \div Sample) + 1 IN
+             {d \in Disjs : (HashAlts(d, 1, Seed * 13 + pos * 101) % keep) = 0}
+Sample1 == IF Sample = 0 THEN {} ELSE Pick(1)
+Sample2 == IF Sample = 0 THEN {} ELSE Pick(2)
+Sample3 == IF Sample = 0 THEN {} ELSE Pick(3)
 
 VARIABLES ds, res, pres
 vars == <<ds, res, pres>>
